@@ -155,7 +155,7 @@ func hasPrefixUnicode(s, prefix []byte) (bool, bool) {
 	// The max difference in encoded lengths between cases is 2 bytes for
 	// [kK] (1 byte) and Kelvin 'K' (3 bytes).
 	n := len(s)
-	if len(prefix) > n*3 || (len(prefix) > n*2 && !containsKelvin(prefix)) {
+	if int64(len(prefix)) > int64(n)*3 || (int64(len(prefix)) > int64(n)*2 && !containsKelvin(prefix)) {
 		return false, true
 	}
 
@@ -212,7 +212,7 @@ func TrimPrefix(s, prefix []byte) []byte {
 	// The max difference in encoded lengths between cases is 2 bytes for
 	// [kK] (1 byte) and Kelvin 'K' (3 bytes).
 	n := len(s)
-	if n*3 < len(prefix) || (n*2 < len(prefix) && !containsKelvin(prefix)) {
+	if int64(n)*3 < int64(len(prefix)) || (int64(n)*2 < int64(len(prefix)) && !containsKelvin(prefix)) {
 		return s
 	}
 
@@ -285,7 +285,7 @@ func hasSuffixUnicode(s, suffix []byte) (bool, int) {
 	if nt == 0 {
 		return true, ns
 	}
-	if ns*3 < nt || (ns*2 < nt && !containsKelvin(suffix)) {
+	if int64(ns)*3 < int64(nt) || (int64(ns)*2 < int64(nt) && !containsKelvin(suffix)) {
 		return false, 0
 	}
 
@@ -587,7 +587,7 @@ func Index(s, substr []byte) int {
 	case n == size:
 		return IndexRune(s, r)
 	case n >= len(s):
-		if n > len(s)*3 {
+		if int64(n) > int64(len(s))*3 {
 			return -1
 		}
 		// Match here is possible due to upper/lower case runes
@@ -603,7 +603,7 @@ func Index(s, substr []byte) int {
 		// Kelvin K is three times the size of ASCII [Kk] so we need
 		// to check for it to see if the longer needle (substr) could
 		// possibly match the shorter haystack (s).
-		if n > len(s)*2 && !containsKelvin(substr) {
+		if int64(n) > int64(len(s))*2 && !containsKelvin(substr) {
 			return -1
 		}
 		// NB: until disproven this is sufficiently fast (and maybe fastest)
@@ -789,10 +789,10 @@ func LastIndex(s, substr []byte) int {
 	case n == size:
 		return lastIndexRune(s, r)
 	case n >= len(s):
-		if n > len(s)*3 {
+		if int64(n) > int64(len(s))*3 {
 			return -1
 		}
-		if n > len(s)*2 && !containsKelvin(substr) {
+		if int64(n) > int64(len(s))*2 && !containsKelvin(substr) {
 			return -1
 		}
 		// fallthrough
